@@ -196,7 +196,7 @@ DoPut(S, r, e) ==
 Match(f, x) == f = 0 \/ f = x
 DoGet(S, r, e) ==
   LET R == S.R[r]  k == S.E[e].kids IN
-  CASE S.E[e].kind = "rel" -> <<Succeed([S EXCEPT !.R[r].users = RemoveVal(@, k[2])], e, None), TRUE>>
+  CASE S.E[e].kind \in {"rel", "relx"} -> <<Succeed([S EXCEPT !.R[r].users = RemoveVal(@, k[2])], e, None), TRUE>>
     [] R.kind = "cont" ->
          IF R.level >= k[2] THEN <<Succeed([S EXCEPT !.R[r].level = @ - k[2]], e, None), TRUE>> ELSE <<S, FALSE>>
     [] R.kind \in {"store", "pstore"} ->
@@ -291,7 +291,7 @@ NextCb ==
        [] cb.t = "stop" ->
             \* StopSimulation.callback: run() returns the value, or re-raises the failure; the step is abandoned
             /\ cur' = NoCur
-            /\ IF top.mode = "step" /\ evs[e].ok
+            /\ IF top.mode \in {"step", "steps"} /\ evs[e].ok
                THEN Return("X", Val("StopSimulation", 0, <<>>), log)   \* a stale stop callback fires under step()
                ELSE Return(IF evs[e].ok THEN "RET" ELSE "X", evs[e].val, log)
             /\ UNCHANGED <<agenda, seq, evs, procs, run>>
@@ -337,6 +337,11 @@ Noted(o) == script' = IF o.k = "spawn" THEN [script EXCEPT ![P + 1] = Append(@, 
 TopOnly == {"run", "step", "steps", "rununtil", "runev"}
 ResOps == {"mkres", "request", "release", "cancel", "withexit", "put", "get"}
 UserKinds == {"to", "ev", "proc", "cond", "req", "rel", "put", "get"}
+InSeq(q, x) == \E i \in 1..Len(q) : q[i] = x
+\* a request can be cancelled once: afterwards it is neither queued nor triggered (cancelling it again raises in the
+\* implementation; no property speaks about that, so scripts never do it)
+QueuedOrDone(e) == \/ evs[e].st # "pending"
+                   \/ LET r == evs[e].kids[1] IN InSeq(res[r].putq, e) \/ InSeq(res[r].getq, e)
 \* an op that names something that does not exist (yet) has no effect (logged as Skip)
 Valid(o) ==
   CASE o.k = "yield" -> P # 0 /\ Exists(o.a) /\ evs[o.a].kind \in UserKinds /\ o.a # procs[P].pe
@@ -346,8 +351,9 @@ Valid(o) ==
                        /\ \A i, j \in 1..Len(o.s) : i # j => o.s[i] # o.s[j]
     [] o.k = "runev" -> Exists(o.a) /\ evs[o.a].kind \in UserKinds
     [] o.k \in {"request", "put", "get"} -> o.a \in 1..Len(res)
-    [] o.k \in {"release", "withexit"} -> Exists(o.a) /\ evs[o.a].kind = "req"
-    [] o.k = "cancel" -> Exists(o.a) /\ evs[o.a].kind \in {"req", "put", "get"}
+    [] o.k = "release" -> Exists(o.a) /\ evs[o.a].kind = "req"
+    [] o.k = "withexit" -> Exists(o.a) /\ evs[o.a].kind = "req" /\ QueuedOrDone(o.a)
+    [] o.k = "cancel" -> Exists(o.a) /\ evs[o.a].kind \in {"req", "put", "get"} /\ QueuedOrDone(o.a)
     [] OTHER -> TRUE
 Refused(type) == Append(log, L("E", P, FALSE, Val(type, 0, <<>>)))
 
@@ -493,9 +499,10 @@ Do(o) ==
             /\ evs' = S1.E /\ agenda' = S1.ag /\ seq' = S1.sq /\ res' = S1.R
             /\ procs' = Bump(procs) /\ UNCHANGED <<run, log>>
        [] o.k = "withexit" ->                      \* leaving `with resource.request() as req:` = cancel + release
-            LET r == evs[o.a].kids[1]  e == Len(evs) + 1
+            LET r == evs[o.a].kids[1]
                 S0 == CancelReq([E |-> evs, ag |-> agenda, sq |-> seq, R |-> res], o.a)
-                E0 == Append(S0.E, NewEv("rel", "pending", TRUE, None, FALSE, <<Cb("tput", r)>>, P, <<r, o.a, 0, now, -1, 0>>, FALSE))
+                e == Len(S0.E) + 1        \* the re-scan after the cancellation may have created an Interruption event
+                E0 == Append(S0.E, NewEv("relx", "pending", TRUE, None, FALSE, <<Cb("tput", r)>>, P, <<r, o.a, 0, now, -1, 0>>, FALSE))
                 R0 == [S0.R EXCEPT ![r].getq = Append(@, e)]
                 S1 == TriggerGet([E |-> E0, ag |-> S0.ag, sq |-> S0.sq, R |-> R0], r)
             IN /\ evs' = S1.E      \* no probe: the release event of a with-block is not visible to the caller
